@@ -8,6 +8,8 @@
 #include <iostream>
 #include <iomanip>
 #include <memory>
+#include <mutex>
+#include <atomic>
 #include <type_traits> 
 #include <utility>   
 #include <sstream>  
@@ -440,7 +442,8 @@ namespace SplineTrajectory
         mutable std::vector<SpatialVariableLayout> spatial_layout_;
         mutable int derivatives_offset_ = 0;
         mutable int total_dimension_ = 0;
-        mutable bool layout_dirty_ = true;
+        mutable std::atomic<bool> layout_dirty_{true};
+        mutable std::mutex layout_mutex_;
         
         /**
          * @brief Helper method to retrieve or create the internal workspace.
@@ -457,7 +460,7 @@ namespace SplineTrajectory
 
         void markLayoutDirty()
         {
-            layout_dirty_ = true;
+            layout_dirty_.store(true, std::memory_order_release);
         }
 
         bool isSpatialOptimized(int idx) const
@@ -506,7 +509,7 @@ namespace SplineTrajectory
             {
                 derivatives_offset_ = 0;
                 total_dimension_ = 0;
-                layout_dirty_ = false;
+                layout_dirty_.store(false, std::memory_order_release);
                 return;
             }
 
@@ -525,16 +528,23 @@ namespace SplineTrajectory
 
             derivatives_offset_ = offset;
             total_dimension_ = derivatives_offset_ + countOptimizedDerivativeBlocks() * DIM;
-            layout_dirty_ = false;
+            layout_dirty_.store(false, std::memory_order_release);
         }
 
+        // evaluate() is const and may run concurrently from several threads (one Workspace each):
+        // the lazy rebuild is double-checked under a mutex so that only one thread fills the cache
+        // and the others see it complete.
         void ensureLayoutCache() const
         {
-            if (!layout_dirty_)
+            if (!layout_dirty_.load(std::memory_order_acquire))
             {
                 return;
             }
-            rebuildLayoutCache();
+            std::lock_guard<std::mutex> lock(layout_mutex_);
+            if (layout_dirty_.load(std::memory_order_relaxed))
+            {
+                rebuildLayoutCache();
+            }
         }
         
         static constexpr double MIN_VALID_DURATION = 1e-3; // 1 ms
@@ -561,7 +571,7 @@ namespace SplineTrajectory
               spatial_layout_(other.spatial_layout_),
               derivatives_offset_(other.derivatives_offset_),
               total_dimension_(other.total_dimension_),
-              layout_dirty_(other.layout_dirty_)
+              layout_dirty_(other.layout_dirty_.load())
         {
             active_time_map_ = (other.active_time_map_ == &other.default_time_map_)
                               ? &default_time_map_
@@ -592,7 +602,7 @@ namespace SplineTrajectory
                 spatial_layout_ = other.spatial_layout_;
                 derivatives_offset_ = other.derivatives_offset_;
                 total_dimension_ = other.total_dimension_;
-                layout_dirty_ = other.layout_dirty_;
+                layout_dirty_.store(other.layout_dirty_.load());
 
                 active_time_map_ = (other.active_time_map_ == &other.default_time_map_)
                                   ? &default_time_map_
